@@ -13,7 +13,7 @@ from __future__ import annotations
 
 import json
 
-from hgv.schedmodel import Pending
+from hgv.schedmodel import Pending, snode_equiv
 
 NEVER = -1
 
@@ -85,6 +85,7 @@ class Model:
         self.cycles = []
         self.passive = {}    # node id -> set of passive input indices
         for st in prog["stmts"]:
+            st = snode_equiv(st)
             op = st["op"]
             if op == "src":
                 self.ports[st["id"]] = Port()
